@@ -8,7 +8,8 @@
 From Coq Require Import ZArith List Bool Permutation.
 From Batchie Require Import Lib.Sexp Model.Encode Model.Screen Model.Retro Model.Pairwise Model.RetroInit
   Proofs.C11Lib Proofs.C11Select Proofs.C11Holdout Proofs.C13Filter Proofs.C13Optimal Proofs.C13Size
-  Proofs.C13NPlate Proofs.C13SampleSeg Proofs.C13Shapes.
+  Proofs.C13NPlate Proofs.C13SampleSeg Proofs.C13Shapes Proofs.C13MergeLib Proofs.C13TopBottom
+  Proofs.C13MergeMin Proofs.C13MergeShapes.
 Import ListNotations.
 
 (* ---- sample-segregating generator ---- *)
@@ -107,6 +108,72 @@ Proof.
   exists [67%Z]. vm_compute. split; [tauto|reflexivity].
 Qed.
 Print Assumptions C13_nplate_minimum_refuted.
+
+(* ---- merge smoothers ---- *)
+(* only plates of one sample are merged: whenever a merge smoother returns (and, for TopBottom, runs at
+   least one iteration) every unobserved plate of the result holds one sample; with no iteration
+   nothing is merged at all *)
+Theorem C13_merge_same_sample : forall rows ds out ds',
+  (forall ms, smooth_plates (SMergeMin ms) rows ds = Ok (out, ds') -> one_sample (unobserved out)) /\
+  (forall n, smooth_plates (SMergeTB n) rows ds = Ok (out, ds') ->
+     one_sample (unobserved out) \/ ((n <= 0)%Z /\ unobserved out = unobserved rows)).
+Proof. exact merge_same_sample_w. Qed.
+Print Assumptions C13_merge_same_sample.
+
+(* min-merging stops exactly when the two smallest plates of a sample together exceed min_size:
+   afterwards any two distinct unobserved plates of a sample together exceed it (for every heappop
+   answer the model accepts, i.e. every answer that is a smallest plate), and if that already holds
+   of the input nothing is merged *)
+Theorem C13_mergemin_stop : forall ms rows ds out ds',
+  smooth_plates (SMergeMin ms) rows ds = Ok (out, ds') ->
+  (forall s, stop_rule s ms (unobserved out)) /\
+  ((forall s, stop_rule s ms (unobserved rows)) -> unobserved out = unobserved rows).
+Proof. exact mergemin_stop_w. Qed.
+Print Assumptions C13_mergemin_stop.
+
+(* one top-bottom iteration for sample s: n -> ceil(n/2) plates of s, other samples untouched;
+   the loop breaks only when s has at most one plate *)
+Theorem C13_topbottom_halves : forall s rows,
+  match tb_iter s rows with
+  | Ok (Some rows') =>
+      one_sample rows' /\
+      length (sample_plates s rows') = (length (sample_plates s rows) + 1) / 2 /\
+      forall s', s' <> s -> sample_plates s' rows' = sample_plates s' rows
+  | Ok None => one_sample rows /\ length (sample_plates s rows) <= 1
+  | Err _ => True
+  end.
+Proof. exact tb_iter_halves. Qed.
+Print Assumptions C13_topbottom_halves.
+
+(* end to end: n_iterations halvings of the number of unobserved plates of every sample *)
+Theorem C13_topbottom_counts : forall n rows ds out ds',
+  smooth_plates (SMergeTB n) rows ds = Ok (out, ds') ->
+  forall s, length (sample_plates s (unobserved out))
+            = halve_n (Z.to_nat n) (length (sample_plates s (unobserved rows))).
+Proof. exact topbottom_counts_w. Qed.
+Print Assumptions C13_topbottom_counts.
+
+(* sample A with plates of sizes 1,1,2,3 *)
+Definition w_mm : list row :=
+  [w_row 65 [1] 1; w_row 65 [2] 2; w_row 65 [3] 3; w_row 65 [3] 4; w_row 65 [4] 5; w_row 65 [4] 6; w_row 65 [4] 7]%Z.
+(* min_size 4, heappop answers: plates 1,2 (1+1<=4: merged into plate 1), then plates {3, 4, 1+2}: pops 3 (size 2)
+   and the merged plate (size 2): 2+2<=4 merged; then {4 (3), merged (4)}: 3+4>4 stop *)
+Example C13_mergemin_example :
+  option_map (fun r => (map r_plate (fst r), length (snd r)))
+    (match smooth_plates (SMergeMin 4) w_mm
+             [DInts [0]; DInts [0]; DInts [0]; DInts [1]; DInts [0]; DInts [0]] with Ok r => Some r | Err _ => None end)
+  = Some ([[1]; [1]; [1]; [1]; [4]; [4]; [4]]%Z, 0).
+Proof. vm_compute. reflexivity. Qed.
+(* a heappop answer that is not a smallest plate is refused *)
+Example C13_mergemin_bad_oracle :
+  smooth_plates (SMergeMin 4) w_mm [DInts [3]; DInts [0]] = Err 93%Z.
+Proof. vm_compute. reflexivity. Qed.
+(* top-bottom, one iteration: 4 plates -> 2 *)
+Example C13_topbottom_example :
+  option_map (fun r => map r_plate (fst r))
+    (match smooth_plates (SMergeTB 1) w_mm [] with Ok r => Some r | Err _ => None end)
+  = Some [[1]; [2]; [2]; [2]; [1]; [1]; [1]]%Z.
+Proof. vm_compute. reflexivity. Qed.
 
 (* the repaired logic on the same witnesses *)
 Example C13_sample_segregating_fixed_witness :
